@@ -2,7 +2,11 @@ use super::cbor_calculator::CborCalculator;
 use super::indexes::{AssetIndex, PolicyIndex, UtxoIndex};
 use super::utxo_stat::UtxosStat;
 use crate::*;
+#[cfg(not(feature = "verif-hooks"))]
 use std::collections::{HashMap, HashSet};
+#[cfg(feature = "verif-hooks")]
+#[allow(unused_imports)]
+use crate::verif_hooks::{HashMap, HashSet, SimNew};
 
 #[derive(Clone)]
 struct IntermediatePolicyState {
